@@ -114,6 +114,18 @@ def check_unit(ctx, tree, kappas, script, mode, prop='C01'):
             'cells': list(kappas)})
         ctx.traces += 1
         loop = out['loop']
+        # the theorems' hypothesis wfb must hold on every tree the real
+        # validator accepts and in which every non-leaf node has a child
+        populated = all(len(k) > 0 for l in tree['hierarchy'][:-1]
+                        for k in tree[l].values())
+        if out['wf'] != populated:
+            ctx.violation(
+                '%s/model/wfb' % prop,
+                'model: wfb=%s on a validated tree with populated=%s'
+                % (out['wf'], populated),
+                dict(detail, broken='hypothesis wfb ~ validate_taxonomy_tree '
+                                    '+ every parent has a child'),
+                found_input=False)
         if status == 'ok':
             same = 'ok' in loop and len(loop['ok']) == len(res) and all(
                 U.levels_equal(m, canon.levels_json(r))
@@ -465,7 +477,9 @@ def run_e2e(ctx, n):
     rng = ctx.rng
     for i in range(n):
         problem = U.make_problem(rng, max_depth=5 if i % 3 else 3,
-                                 duplicate_cells=(i % 5 == 0))
+                                 duplicate_cells=(i % 5 == 0),
+                                 n_cells=rng.randint(11, 26) if i % 4 == 1
+                                 else None)
         cfg = U.gen_config(rng, problem)
         h = problem['tree']['hierarchy']
         if i % 7 == 3 and len(h) > 2:
